@@ -6,6 +6,7 @@ import Proofs.KNNorm
 import Proofs.KNTable
 import Proofs.KNCorpus
 import Proofs.KNProb
+import Proofs.KNCorpus3
 /-!
 # C06 — lmplz output is a proper, closed, loadable language model
 
@@ -184,6 +185,13 @@ theorem header_counts (c : Spec.Ctx) (n : Nat) (hn : n < c.es.length)
     simp [List.getD, hn]
   rw [this, length_mergeSort_map_filter, kept_iff_unmarked _ hpos hsp]
   rfl
+
+/-- **header_counts, for every corpus**: the header / metadata counts are the numbers of entries -/
+theorem header_counts_corpus (cfg : Cfg) (pv : Bool) (fallback : Option Disc) (corpus : List (List Word)) (m : Model)
+    (hm : Spec.estimate cfg pv fallback corpus = .ok m) (h2 : 2 ≤ cfg.order) (hne : corpus ≠ [])
+    (hw : ∀ s ∈ corpus, ∀ w ∈ s, 3 ≤ w) (hthr : ∀ i, i < cfg.order - 1 → cfg.thr i ≤ cfg.thr (i + 1)) :
+    m.header = m.orders.map List.length :=
+  KV.KN.Norm.header_counts_corpus cfg pv fallback corpus m hm h2 hne hw hthr
 
 /-- **closed** (specification): every written n-gram of order ≥ 2 has its context (drop the
 newest word) and its suffix (drop the oldest word) written one order lower — under pruning too. -/
